@@ -5,7 +5,7 @@ CHECKS = {}
 
 CHECKS["C04"] = {
     "level": "exploration",
-    "technique": "property-based testing (rapid) of hack.HijackClientHelloConn over a scripted net.Conn against a stream-only reference oracle; exhaustive enumeration of all read partitions of short streams; native go fuzzing in the thorough tier",
+    "technique": "property-based testing (rapid) of hack.HijackClientHelloConn over a scripted net.Conn against a stream-only reference oracle; exhaustive enumeration of all read partitions of short streams; native go fuzzing in the thorough tier; the same scripts delivered slowly on a fake clock (pauses up to an hour inside the first record); real TLS handshakes through proxyserver (hello in one record or continued in a second) against a handler that reads the connection metadata: handed exactly the first record on the wire, and served",
     "rule": "case = (stream: record type, version, declared length, payload, following bytes) x (read schedule: delivery sizes, reader buffer sizes, terminal error, early GetClientHello probes). Non-trivial = the schedule cuts inside the 5-byte header, or one Read crosses the end of the first record, or the stream is a reject case (wrong type/version, truncated); distinct by hash of the whole script.",
     "level_text": "Generated-input search with a reference oracle computed from the raw stream only: ~40k (quick) / 1.5M (thorough) generated stream x schedule pairs, plus complete enumeration of every read partition of 60 short streams. Evidence of absence of counterexamples in that space, not a proof.",
     "level_note": "Trusted: the 20-line reference predicate (type 0x16, version 0x0300..0x0304, 5+declared length delivered) and the scripted net.Conn, which only returns errors with n=0 as real TCP/TLS callers observe.",
@@ -116,7 +116,7 @@ CHECKS["C16"] = {
 
 CHECKS["C11"] = {
     "level": "fault_enumeration",
-    "technique": "fault injection by generated abort/stall points (rapid under testing/synctest fake time): client closes or goes silent after a drawn byte offset of an h2 / http/1.1 / no-ALPN session, garbage / plain-HTTP / silent clients, idle waits after served requests, for drawn handshake and idle timeouts, sequential and parallel; oracles: Close() on the accepted conn, goroutine census of the bubble after teardown, exact fake-time deadlines; plus the same through the CLI flags (overlay test in package fingerproxy); idle HTTP/2 clients that keep sending control frames but no request",
+    "technique": "fault injection by generated abort/stall points (rapid under testing/synctest fake time): client closes or goes silent after a drawn byte offset of an h2 / http/1.1 / no-ALPN session, garbage / plain-HTTP / silent clients, idle waits after served requests, for drawn handshake and idle timeouts, sequential and parallel; oracles: Close() on the accepted conn, goroutine census of the bubble after teardown, exact fake-time deadlines; plus the same through the CLI flags (overlay test in package fingerproxy); idle HTTP/2 clients that keep sending control frames but no request; connections taken over by the handler (Upgrade / 101 through the reverse proxy): tunnels closed by client, backend or abort next to other tunnels, then a goroutine census",
     "rule": "case = timeouts x 1..6 connections each with a mode (abort at offset, stall at offset, idle after requests, normal close, garbage/plain-http/silent). Non-trivial = an abort or stall strictly inside the session, or an idle wait; distinct by hash of the script.",
     "level_text": "Generated fault points rather than a complete enumeration in the quick tier (offsets 0..2600 drawn uniformly, ~1200 scenarios); the thorough tier enumerates every byte offset of the three reference sessions. Every wait is in fake time, so 'eventually' clauses are decided at quiescence.",
     "level_note": _E2E_NOTE + " net.Pipe connections: OS-level descriptors are not involved.",
@@ -185,7 +185,7 @@ CHECKS["C19"] = {
 
 CHECKS["C08"] = {
     "level": "exploration",
-    "technique": "property-based testing (rapid under testing/synctest): grammar-generated requests (methods, escaped/dotted paths, queries, 0..12 repeated/empty/long/obs-text headers, cookies, hop-by-hop and Connection-nominated headers, bodies 0..200 KiB quick / 4 MiB thorough sent with Content-Length, chunked or as DATA frames in drawn pieces, request trailers) and backend response scripts (status, headers, streamed bodies with flushes, announced and unannounced trailers), over HTTP/1.1 (raw writer) and HTTP/2 (x/net v0.19.0 Transport client, up to 6 requests in flight), PreserveHost on/off; two-directional validity oracle; plus the binary's transport configuration through the CLI wiring (overlay)",
+    "technique": "property-based testing (rapid under testing/synctest): grammar-generated requests (methods, escaped/dotted paths, queries, 0..12 repeated/empty/long/obs-text headers, cookies, hop-by-hop and Connection-nominated headers, bodies 0..200 KiB quick / 4 MiB thorough sent with Content-Length, chunked or as DATA frames in drawn pieces, request trailers) and backend response scripts (status, headers, streamed bodies with flushes, announced and unannounced trailers), over HTTP/1.1 (raw writer) and HTTP/2 (x/net v0.19.0 Transport client, up to 6 requests in flight), PreserveHost on/off; two-directional validity oracle; plus the binary's transport configuration through the CLI wiring (overlay); hand-written backend responses (304 with Content-Length, close-delimited body, chunk extensions), hundreds of empty DATA frames inside one upload, status codes up to 999; backend connections that break in the middle of an upload, through the binary's own handler wiring (fault injection on the backend side of the k-th connection)",
     "rule": "case = protocol + PreserveHost + 1..6 request/response pairs (sequential or concurrent). Non-trivial = a body above 64 KiB (exceeds the initial HTTP/2 window), or trailers, or at least three requests in flight; distinct by hash of the script.",
     "level_text": "Generated-input search with predicates in both directions: method, path, query, body bytes and every end-to-end header value list equal at the backend; hop-by-hop and nominated headers absent; nothing invented beyond forwarding/fingerprint headers and message framing; Host per PreserveHost; status, backend headers, body bytes and trailers equal at the client.",
     "level_note": _E2E_NOTE + " Header order across different names and exact message framing are not observable through net/http and not part of the statement. Cookie lines are compared after joining with '; ' (RFC 9113 8.2.3).",
